@@ -9,6 +9,11 @@ import (
 // Engine is the compiled query. It is able to evaluate the entire query.
 type Engine struct {
 	Statements []*Statement
+
+	// evaluating holds the names of the variables that are currently being
+	// evaluated. It is used to detect variables that are defined in terms of
+	// themselves.
+	evaluating map[string]bool
 }
 
 // Evaluate executes all of the expressions and returns the final result.
